@@ -6,6 +6,7 @@
 import Mtv.TL.Decode
 import Mtv.TL.Typing
 import Mtv.Gen.Registry
+import Mtv.Lemmas.C15Fuel
 namespace Mtv.TL
 
 /-- vector hints as `DecodeUnknownObject`'s callers pass them: slice types -/
@@ -165,20 +166,20 @@ private theorem safe_prim {β : Type} (x : Outcome (β × Bytes)) (hs : List Ty)
 
 /-- All six mutually recursive decoder functions at once, by induction on the fuel. -/
 theorem decoder_safe (R : Registry) (gz : Bytes → Option Bytes) : ∀ (fuel : Nat),
-    (∀ ty bs hs, AllVec hs → Safe (decVal R gz fuel ty bs hs)) ∧
-    (∀ e bs hs, AllVec hs → Safe (decVecBody R gz fuel e bs hs)) ∧
-    (∀ e n bs hs, AllVec hs → Safe (decItems R gz fuel e n bs hs)) ∧
-    (∀ d bs hs, AllVec hs → Safe (decStruct R gz fuel d bs hs)) ∧
-    (∀ k w fs bs hs, AllVec hs → Safe (decFields R gz fuel k w fs bs hs)) ∧
-    (∀ bs hs, AllVec hs → Safe (decRegistered R gz fuel bs hs))
+    (∀ dp ty bs hs, AllVec hs → Safe (decVal R gz dp fuel ty bs hs)) ∧
+    (∀ dp e bs hs, AllVec hs → Safe (decVecBody R gz dp fuel e bs hs)) ∧
+    (∀ dp e n bs hs, AllVec hs → Safe (decItems R gz dp fuel e n bs hs)) ∧
+    (∀ dp d bs hs, AllVec hs → Safe (decStruct R gz dp fuel d bs hs)) ∧
+    (∀ dp k w fs bs hs, AllVec hs → Safe (decFields R gz dp fuel k w fs bs hs)) ∧
+    (∀ dp bs hs, AllVec hs → Safe (decRegistered R gz dp fuel bs hs))
   | 0 => by
     refine ⟨?_, ?_, ?_, ?_, ?_, ?_⟩
-    · intro ty bs hs _; simp [decVal, Safe]
-    · intro e bs hs _; simp [decVecBody, Safe]
-    · intro e n bs hs H; cases n <;> simp [decItems, Safe, H]
-    · intro d bs hs _; simp [decStruct, Safe]
-    · intro k w fs bs hs H; cases fs <;> simp [decFields, Safe, H]
-    · intro bs hs _; simp [decRegistered, Safe]
+    · intro dp ty bs hs _; simp [decVal, Safe]
+    · intro dp e bs hs _; simp [decVecBody, Safe]
+    · intro dp e n bs hs H; cases n <;> simp [decItems, Safe, H]
+    · intro dp d bs hs _; simp [decStruct, Safe]
+    · intro dp k w fs bs hs H; cases fs <;> simp [decFields, Safe, H]
+    · intro dp bs hs _; simp [decRegistered, Safe]
   | fuel + 1 => by
     obtain ⟨ihVal, ihVec, ihItems, ihStruct, ihFields, ihReg⟩ := decoder_safe R gz fuel
     have hUint : ∀ bs, ¬ (popUint bs).isPanic := by
@@ -189,7 +190,7 @@ theorem decoder_safe (R : Registry) (gz : Bytes → Option Bytes) : ∀ (fuel : 
       | err e => simp [Outcome.isPanic]
     refine ⟨?_, ?_, ?_, ?_, ?_, ?_⟩
     · -- decVal
-      intro ty bs hs H
+      intro dp ty bs hs H
       cases ty with
       | int32 =>
         simp only [decVal]
@@ -262,7 +263,7 @@ theorem decoder_safe (R : Registry) (gz : Bytes → Option Bytes) : ∀ (fuel : 
           simp only
           split
           · exact safe_err _
-          · exact ihVec e r hs H
+          · exact ihVec dp e r hs H
       | ptr id =>
         simp only [decVal]
         cases R.find id with
@@ -280,14 +281,14 @@ theorem decoder_safe (R : Registry) (gz : Bytes → Option Bytes) : ∀ (fuel : 
               simp only
               split
               · exact safe_err _
-              · exact ihStruct d r hs H
+              · exact ihStruct dp d r hs H
           | enum => exact safe_err _
           | container => exact safe_err _
           | gzip => exact safe_err _
       | iface nm =>
         simp only [decVal]
-        have := ihReg bs hs H
-        cases h : decRegistered R gz fuel bs hs with
+        have := ihReg dp bs hs H
+        cases h : decRegistered R gz dp fuel bs hs with
         | err _ => exact safe_err _
         | panic s => rw [h] at this; exact this.elim
         | ok p =>
@@ -298,7 +299,7 @@ theorem decoder_safe (R : Registry) (gz : Bytes → Option Bytes) : ∀ (fuel : 
           · exact this
           · exact safe_err _
     · -- decVecBody
-      intro e bs hs H
+      intro dp e bs hs H
       simp only [decVecBody]
       cases h : popUint bs with
       | err _ => exact safe_err _
@@ -308,42 +309,42 @@ theorem decoder_safe (R : Registry) (gz : Bytes → Option Bytes) : ∀ (fuel : 
         simp only
         split
         · exact safe_err _
-        · have := ihItems e n r hs H
-          cases h2 : decItems R gz fuel e n r hs with
+        · have := ihItems dp e n r hs H
+          cases h2 : decItems R gz dp fuel e n r hs with
           | err _ => exact safe_err _
           | panic s => rw [h2] at this; exact this.elim
           | ok q => obtain ⟨items, r', hs'⟩ := q; rw [h2] at this; exact this
     · -- decItems
-      intro e n bs hs H
+      intro dp e n bs hs H
       cases n with
       | zero => simp [decItems, Safe, H]
       | succ n =>
         simp only [decItems]
-        have h1 := ihVal e bs hs H
-        cases hv : decVal R gz fuel e bs hs with
+        have h1 := ihVal dp e bs hs H
+        cases hv : decVal R gz dp fuel e bs hs with
         | err _ => exact safe_err _
         | panic s => rw [hv] at h1; exact h1.elim
         | ok p =>
           obtain ⟨v, r, hs'⟩ := p
           rw [hv] at h1
           simp only
-          have h2 := ihItems e n r hs' h1
-          cases hi : decItems R gz fuel e n r hs' with
+          have h2 := ihItems dp e n r hs' h1
+          cases hi : decItems R gz dp fuel e n r hs' with
           | err _ => exact safe_err _
           | panic s => rw [hi] at h2; exact h2.elim
           | ok q => obtain ⟨vs, r', hs''⟩ := q; rw [hi] at h2; exact h2
     · -- decStruct
-      intro d bs hs H
+      intro dp d bs hs H
       simp only [decStruct]
       split
       · exact safe_err _
-      · have := ihFields d.flagIndex 0 d.fields bs hs H
-        cases h2 : decFields R gz fuel d.flagIndex 0 d.fields bs hs with
+      · have := ihFields dp d.flagIndex 0 d.fields bs hs H
+        cases h2 : decFields R gz dp fuel d.flagIndex 0 d.fields bs hs with
         | err _ => exact safe_err _
         | panic s => rw [h2] at this; exact this.elim
         | ok q => obtain ⟨fs, r', hs'⟩ := q; rw [h2] at this; exact this
     · -- decFields
-      intro k w fs bs hs H
+      intro dp k w fs bs hs H
       cases fs with
       | nil => simp [decFields, Safe, H]
       | cons f fs =>
@@ -362,26 +363,26 @@ theorem decoder_safe (R : Registry) (gz : Bytes → Option Bytes) : ∀ (fuel : 
           obtain ⟨w', r0⟩ := p
           simp only
           have tailSafe : ∀ (bs' : Bytes) (hs' : List Ty), AllVec hs' → ∀ (pre : Val),
-              Safe (match decFields R gz fuel (nextK k) w' fs bs' hs' with
+              Safe (match decFields R gz dp fuel (nextK k) w' fs bs' hs' with
                 | .ok (vs, r, hs'') => (Outcome.ok (pre :: vs, r, hs'') : DRes (List Val))
                 | .err er => .err er
                 | .panic s => .panic s) := by
             intro bs' hs' H' pre
-            have := ihFields (nextK k) w' fs bs' hs' H'
-            cases h2 : decFields R gz fuel (nextK k) w' fs bs' hs' with
+            have := ihFields dp (nextK k) w' fs bs' hs' H'
+            cases h2 : decFields R gz dp fuel (nextK k) w' fs bs' hs' with
             | err _ => exact safe_err _
             | panic s => rw [h2] at this; exact this.elim
             | ok q => obtain ⟨vs, r', hs''⟩ := q; rw [h2] at this; exact this
-          have valCase : Safe (match decVal R gz fuel f.ty r0 hs with
+          have valCase : Safe (match decVal R gz dp fuel f.ty r0 hs with
               | .err er => (Outcome.err er : DRes (List Val))
               | .panic s => .panic s
               | .ok (v, r, hs') =>
-                match decFields R gz fuel (nextK k) w' fs r hs' with
+                match decFields R gz dp fuel (nextK k) w' fs r hs' with
                 | .ok (vs, r', hs'') => .ok (v :: vs, r', hs'')
                 | .err er => .err er
                 | .panic s => .panic s) := by
-            have h1 := ihVal f.ty r0 hs H
-            cases hv : decVal R gz fuel f.ty r0 hs with
+            have h1 := ihVal dp f.ty r0 hs H
+            cases hv : decVal R gz dp fuel f.ty r0 hs with
             | err _ => exact safe_err _
             | panic s => rw [hv] at h1; exact h1.elim
             | ok p =>
@@ -404,7 +405,7 @@ theorem decoder_safe (R : Registry) (gz : Bytes → Option Bytes) : ∀ (fuel : 
               · simp only [h2, if_false]
                 exact valCase
     · -- decRegistered
-      intro bs hs H
+      intro dp bs hs H
       simp only [decRegistered]
       cases h : popUint bs with
       | err _ => exact safe_err _
@@ -418,7 +419,7 @@ theorem decoder_safe (R : Registry) (gz : Bytes → Option Bytes) : ∀ (fuel : 
           | nil => exact safe_err _
           | cons h0 hs' =>
             obtain ⟨e, rfl⟩ := H h0 (by simp)
-            exact ihVec e r hs' (AllVec_tail H)
+            exact ihVec dp e r hs' (AllVec_tail H)
         · split
           · exact H
           · cases R.find crc with
@@ -427,7 +428,7 @@ theorem decoder_safe (R : Registry) (gz : Bytes → Option Bytes) : ∀ (fuel : 
               simp only
               cases d.kind with
               | enum => exact H
-              | struct => exact ihStruct d r hs H
+              | struct => exact ihStruct dp d r hs H
               | container =>
                 simp only
                 cases h2 : popUint r with
@@ -452,19 +453,21 @@ theorem decoder_safe (R : Registry) (gz : Bytes → Option Bytes) : ∀ (fuel : 
                   | none => exact safe_err _
                   | some plain =>
                     simp only
-                    have := ihReg plain hs H
-                    cases h3 : decRegistered R gz fuel plain hs with
-                    | err _ => exact safe_err _
-                    | panic s => rw [h3] at this; exact this.elim
-                    | ok q2 => obtain ⟨inner, _, _⟩ := q2; exact H
+                    split
+                    · exact safe_err _
+                    · have := ihReg (dp + 1) plain hs H
+                      cases h3 : decRegistered R gz (dp + 1) fuel plain hs with
+                      | err _ => exact safe_err _
+                      | panic s => rw [h3] at this; exact this.elim
+                      | ok q2 => obtain ⟨inner, _, _⟩ := q2; exact H
 
 /-- **Unknown object** (`DecodeUnknownObject(data, hints...)`): for EVERY byte string, every registry,
 every gzip behaviour, any slice-typed hints and any fuel, the result is a value or an error. -/
 theorem decodeUnknown_no_panic (R : Registry) (gz : Bytes → Option Bytes) (fuel : Nat) (hints : List Ty)
     (bs : Bytes) (hh : AllVec hints) : (decodeUnknown R gz fuel hints bs).isPanic = false := by
-  have := (decoder_safe R gz fuel).2.2.2.2.2 bs hints hh
+  have := (decoder_safe R gz fuel).2.2.2.2.2 0 bs hints hh
   unfold decodeUnknown
-  cases h : decRegistered R gz fuel bs hints with
+  cases h : decRegistered R gz 0 fuel bs hints with
   | err _ => rfl
   | panic s => rw [h] at this; exact this.elim
   | ok p => obtain ⟨v, _, _⟩ := p; rfl
@@ -472,9 +475,9 @@ theorem decodeUnknown_no_panic (R : Registry) (gz : Bytes → Option Bytes) (fue
 /-- **Named type** (`Decode(data, &T{})`) likewise. -/
 theorem decodeNamed_no_panic (R : Registry) (gz : Bytes → Option Bytes) (fuel id : Nat) (bs : Bytes) :
     (decodeNamed R gz fuel id bs).isPanic = false := by
-  have := (decoder_safe R gz fuel).1 (.ptr id) bs [] (by intro h hh; simp at hh)
+  have := (decoder_safe R gz fuel).1 0 (.ptr id) bs [] (by intro h hh; simp at hh)
   unfold decodeNamed
-  cases h : decVal R gz fuel (.ptr id) bs [] with
+  cases h : decVal R gz 0 fuel (.ptr id) bs [] with
   | err _ => rfl
   | panic s => rw [h] at this; exact this.elim
   | ok p => obtain ⟨v, _, _⟩ := p; rfl
@@ -482,9 +485,9 @@ theorem decodeNamed_no_panic (R : Registry) (gz : Bytes → Option Bytes) (fuel 
 /-! ## declared sizes are checked against the remaining input before anything is built -/
 
 /-- a vector count larger than the number of bytes left is refused -/
-theorem vector_count_guard (R : Registry) (gz : Bytes → Option Bytes) (fuel : Nat) (e : Ty) (n : Nat)
+theorem vector_count_guard (R : Registry) (gz : Bytes → Option Bytes) (dp fuel : Nat) (e : Ty) (n : Nat)
     (rest : Bytes) (hs : List Ty) (hn : n < 2 ^ 32) (hbig : rest.length < n) :
-    decVecBody R gz (fuel + 1) e (leBytes n 4 ++ rest) hs = .err "vectorSize" := by
+    decVecBody R gz dp (fuel + 1) e (leBytes n 4 ++ rest) hs = .err "vectorSize" := by
   have : popUint (leBytes n 4 ++ rest) = .ok (n, rest) := by
     have hne : leBytes n 4 ≠ [] := by simp [leBytes]
     have h1 : readN 4 (leBytes n 4 ++ rest) = .ok (leBytes n 4, rest) := by
@@ -503,6 +506,191 @@ theorem raw_size_guard (size : Int) (bs : Bytes) (h : size < 0 ∨ (bs.length : 
   · have h1 : ¬ size < 0 := by omega
     have h2 : bs.length < size.toNat := by omega
     simp [h1, h2]
+
+/-! ## never loops: the fuel of the model is a bound on the depth of the call chain, and an explicit amount
+— linear in the input — is never exhausted; below the fuel error, the result does not depend on the fuel -/
+
+/-- **More fuel never changes a result** that is not the fuel error — for each of the six mutually
+recursive decoder functions and for the two entry points. (The fuel error itself is propagated from
+inside, so "the result with less fuel is not the fuel error" is the hypothesis.) -/
+theorem fuel_mono_decVal (R : Registry) (gz : Bytes → Option Bytes) (dp f f' : Nat) (ty : Ty) (bs : Bytes)
+    (hs : List Ty) (hle : f ≤ f') (h : decVal R gz dp f ty bs hs ≠ .err "fuel") :
+    decVal R gz dp f' ty bs hs = decVal R gz dp f ty bs hs :=
+  ((fuel_mono_all R gz f f' hle).1 dp ty bs hs).eq h
+
+theorem fuel_mono_decVecBody (R : Registry) (gz : Bytes → Option Bytes) (dp f f' : Nat) (e : Ty) (bs : Bytes)
+    (hs : List Ty) (hle : f ≤ f') (h : decVecBody R gz dp f e bs hs ≠ .err "fuel") :
+    decVecBody R gz dp f' e bs hs = decVecBody R gz dp f e bs hs :=
+  ((fuel_mono_all R gz f f' hle).2.1 dp e bs hs).eq h
+
+theorem fuel_mono_decItems (R : Registry) (gz : Bytes → Option Bytes) (dp f f' : Nat) (e : Ty) (n : Nat)
+    (bs : Bytes) (hs : List Ty) (hle : f ≤ f') (h : decItems R gz dp f e n bs hs ≠ .err "fuel") :
+    decItems R gz dp f' e n bs hs = decItems R gz dp f e n bs hs :=
+  ((fuel_mono_all R gz f f' hle).2.2.1 dp e n bs hs).eq h
+
+theorem fuel_mono_decStruct (R : Registry) (gz : Bytes → Option Bytes) (dp f f' : Nat) (d : CtorDesc)
+    (bs : Bytes) (hs : List Ty) (hle : f ≤ f') (h : decStruct R gz dp f d bs hs ≠ .err "fuel") :
+    decStruct R gz dp f' d bs hs = decStruct R gz dp f d bs hs :=
+  ((fuel_mono_all R gz f f' hle).2.2.2.1 dp d bs hs).eq h
+
+theorem fuel_mono_decFields (R : Registry) (gz : Bytes → Option Bytes) (dp f f' : Nat) (k : Option Nat) (w : Nat)
+    (fs : List FieldDesc) (bs : Bytes) (hs : List Ty) (hle : f ≤ f')
+    (h : decFields R gz dp f k w fs bs hs ≠ .err "fuel") :
+    decFields R gz dp f' k w fs bs hs = decFields R gz dp f k w fs bs hs :=
+  ((fuel_mono_all R gz f f' hle).2.2.2.2.1 dp k w fs bs hs).eq h
+
+theorem fuel_mono_decRegistered (R : Registry) (gz : Bytes → Option Bytes) (dp f f' : Nat) (bs : Bytes)
+    (hs : List Ty) (hle : f ≤ f') (h : decRegistered R gz dp f bs hs ≠ .err "fuel") :
+    decRegistered R gz dp f' bs hs = decRegistered R gz dp f bs hs :=
+  ((fuel_mono_all R gz f f' hle).2.2.2.2.2 dp bs hs).eq h
+
+theorem fuel_mono_decodeUnknown (R : Registry) (gz : Bytes → Option Bytes) (f f' : Nat) (hints : List Ty)
+    (bs : Bytes) (hle : f ≤ f') (h : decodeUnknown R gz f hints bs ≠ .err "fuel") :
+    decodeUnknown R gz f' hints bs = decodeUnknown R gz f hints bs := by
+  unfold decodeUnknown at h ⊢
+  rcases (fuel_mono_all R gz f f' hle).2.2.2.2.2 0 bs hints with hm | hm
+  · rw [hm]
+  · rw [hm] at h; exact absurd rfl h
+
+theorem fuel_mono_decodeNamed (R : Registry) (gz : Bytes → Option Bytes) (f f' id : Nat)
+    (bs : Bytes) (hle : f ≤ f') (h : decodeNamed R gz f id bs ≠ .err "fuel") :
+    decodeNamed R gz f' id bs = decodeNamed R gz f id bs := by
+  unfold decodeNamed at h ⊢
+  rcases (fuel_mono_all R gz f f' hle).1 0 (.ptr id) bs [] with hm | hm
+  · rw [hm]
+  · rw [hm] at h; exact absurd rfl h
+
+/- the hypothesis is met by a real decoding (8 units are enough for `pong`), is needed (1 unit is not), and the
+conclusion then holds for any larger fuel -/
+example : decodeUnknown Mtv.Gen.registry (fun _ => none) 1000 [] exPong =
+    decodeUnknown Mtv.Gen.registry (fun _ => none) 8 [] exPong :=
+  fuel_mono_decodeUnknown _ _ 8 1000 [] exPong (by decide) (ne_err_of_errKind (by decide +kernel))
+example : decodeUnknown Mtv.Gen.registry (fun _ => none) 1 [] exPong = .err "fuel" :=
+  eq_err_of_errKind (by decide +kernel)
+example : (decodeUnknown Mtv.Gen.registry (fun _ => none) 8 [] exPong).isOk = true := by decide +kernel
+
+theorem le_maxFields : ∀ (R : Registry) (d : CtorDesc), d ∈ R → d.fields.length ≤ maxFields R
+  | [], d, h => by simp at h
+  | x :: R, d, h => by
+    simp only [maxFields, List.foldr_cons]
+    rcases List.mem_cons.mp h with rfl | h
+    · exact Nat.le_max_left _ _
+    · exact Nat.le_trans (le_maxFields R d h) (Nat.le_max_right _ _)
+
+/-- **Never loops** (termination of the modelled decoder with an explicit bound): for EVERY registry, EVERY
+gzip behaviour whose outputs are at most `G` bytes long, every input, any hints and any named type — with
+fuel `fuelBound R G (length of the input)` or more, neither entry point ever reports the fuel error: the
+decoder comes to its value / error / panic outcome by itself. Provable for an arbitrary `gunzip` because a
+decoder of depth `maxNestedDecoders` refuses packed objects (before the repair 5211125 a packed object could
+unpack to a packed object without end, and no amount of fuel was enough for every `gunzip`). -/
+theorem decode_never_loops (R : Registry) (gz : Bytes → Option Bytes) (G : Nat)
+    (hG : ∀ x y, gz x = some y → y.length ≤ G) (hints : List Ty) (bs : Bytes) (id fuel : Nat)
+    (hf : fuelBound R G bs.length ≤ fuel) :
+    decodeUnknown R gz fuel hints bs ≠ .err "fuel" ∧ decodeNamed R gz fuel id bs ≠ .err "fuel" := by
+  have key := depth_enough R gz (maxFields R) (maxFields R + 4) G (le_maxFields R) (Nat.le_refl _) hG
+    maxNestedDecoders 0 (by simp) bs.length
+  have hb : (maxFields R + 4) * (bs.length + maxNestedDecoders * G) =
+      (maxFields R + 4) * bs.length + maxNestedDecoders * ((maxFields R + 4) * G) := by
+    rw [Nat.mul_add, Nat.mul_left_comm]
+  unfold fuelBound at hf
+  rw [hb] at hf
+  simp only [maxNestedDecoders] at hf key
+  constructor
+  · have := key.2.1 bs hints fuel (Nat.le_refl _) (by omega)
+    unfold decodeUnknown
+    cases h : decRegistered R gz 0 fuel bs hints with
+    | err e => exact NF_of_src this h
+    | panic s => simp
+    | ok p => obtain ⟨v, _, _⟩ := p; simp
+  · have := key.1 bs (.ptr id) [] fuel (Nat.le_refl _) (by omega)
+    unfold decodeNamed
+    cases h : decVal R gz 0 fuel (.ptr id) bs [] with
+    | err e => exact NF_of_src this h
+    | panic s => simp
+    | ok p => obtain ⟨v, _, _⟩ := p; simp
+
+/- a registry with 1200 constructors, a `gunzip` that answers, a packed object as input: the hypotheses hold
+and the decoding with the bound as fuel is a value -/
+example : decodeUnknown Mtv.Gen.registry exGunzip (fuelBound Mtv.Gen.registry 20 (exPack [0x1f]).length) []
+    (exPack [0x1f]) ≠ .err "fuel" :=
+  (decode_never_loops Mtv.Gen.registry exGunzip 20 exGunzip_bound [] (exPack [0x1f]) 0 _ (Nat.le_refl _)).1
+example : (decodeUnknown Mtv.Gen.registry exGunzip (fuelBound Mtv.Gen.registry 20 (exPack [0x1f]).length) []
+    (exPack [0x1f])).isOk = true := by decide +kernel
+
+/-- With the bound or more, the result **is a function of the input alone**: every amount of fuel from the
+bound upwards gives the same outcome. -/
+theorem decode_fuel_irrelevant (R : Registry) (gz : Bytes → Option Bytes) (G : Nat)
+    (hG : ∀ x y, gz x = some y → y.length ≤ G) (hints : List Ty) (bs : Bytes) (id fuel : Nat)
+    (hf : fuelBound R G bs.length ≤ fuel) :
+    decodeUnknown R gz fuel hints bs = decodeUnknown R gz (fuelBound R G bs.length) hints bs ∧
+    decodeNamed R gz fuel id bs = decodeNamed R gz (fuelBound R G bs.length) id bs := by
+  have h0 := decode_never_loops R gz G hG hints bs id (fuelBound R G bs.length) (Nat.le_refl _)
+  exact ⟨fuel_mono_decodeUnknown R gz _ fuel hints bs hf h0.1, fuel_mono_decodeNamed R gz _ fuel id bs hf h0.2⟩
+
+/-- Without packed objects (`gunzip` answers nothing): fuel `(F + 4)·L + 6` is enough. -/
+theorem decode_never_loops_plain (R : Registry) (hints : List Ty) (bs : Bytes) (id fuel : Nat)
+    (hf : (maxFields R + 4) * bs.length + 6 ≤ fuel) :
+    decodeUnknown R (fun _ => none) fuel hints bs ≠ .err "fuel" ∧
+    decodeNamed R (fun _ => none) fuel id bs ≠ .err "fuel" :=
+  decode_never_loops R (fun _ => none) 0 (fun x y h => by cases h) hints bs id fuel (by simpa [fuelBound] using hf)
+
+/-- **A packed object nested too deep is refused**: a decoder that already works for `maxNestedDecoders` (or
+more) enclosing packed objects answers a well-formed packed object — whatever it unpacks to — with an error:
+no panic, and no call of the decoder on the unpacked data (one unit of fuel is enough, and the unpacked bytes
+do not occur in the result). For any registry that has the packed-object descriptor under `crc`, any `gunzip`. -/
+theorem nested_packed_refused (R : Registry) (gz : Bytes → Option Bytes) (dp fuel crc : Nat) (d : CtorDesc)
+    (rest packed plain r1 : Bytes) (hs : List Ty)
+    (hfind : R.find crc = some d) (hkind : d.kind = .gzip) (hcrc : crc < 2 ^ 32)
+    (hv : crc ≠ crcVector) (hb : crc ≠ crcFalse ∧ crc ≠ crcTrue ∧ crc ≠ crcNull)
+    (hmsg : popMessage rest = .ok (packed, r1)) (hgz : gz packed = some plain)
+    (hdp : maxNestedDecoders ≤ dp) :
+    decRegistered R gz dp (fuel + 1) (leBytes crc 4 ++ rest) hs = .err "nestedTooDeep" := by
+  have h1 : popUint (leBytes crc 4 ++ rest) = .ok (crc, rest) := by
+    have hne : leBytes crc 4 ≠ [] := by simp [leBytes]
+    have h1 : readN 4 (leBytes crc 4 ++ rest) = .ok (leBytes crc 4, rest) := by
+      have := (show readN (leBytes crc 4).length (leBytes crc 4 ++ rest) = .ok (leBytes crc 4, rest) from by
+        unfold readN; simp [leBytes])
+      simpa using this
+    simp [popUint, h1, fromLE_leBytes 4 crc (by simpa using hcrc)]
+  simp [decRegistered, h1, hv, hb.1, hb.2.1, hb.2.2, hfind, hkind, hmsg, hgz, hdp]
+
+/- the registry of the working tree has the descriptor; a decoder of depth 4 refuses, one of depth 3 opens;
+from the root, four packed levels around `pong` decode and five do not (`gunzip` = identity) -/
+example : decRegistered Mtv.Gen.registry exGunzip 4 1 (exPack [0x1f]) [] = .err "nestedTooDeep" :=
+  nested_packed_refused Mtv.Gen.registry exGunzip 4 0 0x3072cfa1 ⟨0x3072cfa1, "objects.GzipPacked", .gzip, none, [], []⟩
+    [1, 0x1f, 0, 0] [0x1f] exPong [] [] (by decide +kernel) rfl (by decide) (by decide) (by decide) (by decide)
+    (by decide) (by decide)
+example : (decRegistered Mtv.Gen.registry exGunzip 3 100 (exPack [0x1f]) []).isOk = true := by decide +kernel
+example : (decodeUnknown Mtv.Gen.registry some 100 [] (exPackN 4 exPong)).isOk = true := by decide +kernel
+example : decodeUnknown Mtv.Gen.registry some 100 [] (exPackN 5 exPong) = .err "nestedTooDeep" :=
+  eq_err_of_errKind (by decide +kernel)
+
+/-- and one level higher the same object is opened: the limit is exactly `maxNestedDecoders` -/
+theorem nested_packed_opened (R : Registry) (gz : Bytes → Option Bytes) (dp fuel crc : Nat) (d : CtorDesc)
+    (rest packed plain r1 : Bytes) (hs : List Ty)
+    (hfind : R.find crc = some d) (hkind : d.kind = .gzip) (hcrc : crc < 2 ^ 32)
+    (hv : crc ≠ crcVector) (hb : crc ≠ crcFalse ∧ crc ≠ crcTrue ∧ crc ≠ crcNull)
+    (hmsg : popMessage rest = .ok (packed, r1)) (hgz : gz packed = some plain)
+    (hdp : dp < maxNestedDecoders) :
+    decRegistered R gz dp (fuel + 1) (leBytes crc 4 ++ rest) hs =
+      match decRegistered R gz (dp + 1) fuel plain hs with
+      | .ok (inner, _, _) => .ok (.obj crc [inner], r1, hs)
+      | .err er => .err er
+      | .panic s => .panic s := by
+  have h1 : popUint (leBytes crc 4 ++ rest) = .ok (crc, rest) := by
+    have hne : leBytes crc 4 ≠ [] := by simp [leBytes]
+    have h1 : readN 4 (leBytes crc 4 ++ rest) = .ok (leBytes crc 4, rest) := by
+      have := (show readN (leBytes crc 4).length (leBytes crc 4 ++ rest) = .ok (leBytes crc 4, rest) from by
+        unfold readN; simp [leBytes])
+      simpa using this
+    simp [popUint, h1, fromLE_leBytes 4 crc (by simpa using hcrc)]
+  have hdp' : ¬ maxNestedDecoders ≤ dp := by omega
+  simp only [decRegistered, h1, hv, hb.1, hb.2.1, hb.2.2, hfind, hkind, hmsg, hgz, hdp', if_false, Bool.or_self,
+    decide_false, Bool.false_eq_true]
+  cases decRegistered R gz (dp + 1) fuel plain hs with
+  | ok p => obtain ⟨a, b, c⟩ := p; rfl
+  | err e => rfl
+  | panic s => rfl
 
 /-! ## non-vacuity: inputs that used to panic in the Go code now yield errors in the model of the
 repaired code (an enum id, an object of the wrong interface, a vector with a huge count) -/
